@@ -24,14 +24,6 @@ open Ems Ems.Depth
 /-- the options as the function takes them -/
 abbrev Opt := Option Bool
 
-/-- the plans the normaliser follows (one per coordinate, decided on the input dataset) -/
-abbrev plans (ds : Dataset) (coords : List String) (pd dts : Opt) : List Plan :=
-  coords.map (planFor ds pd dts)
-
-/-- the re-indexing of the levels: dimensions that were reversed are mirrored, others kept -/
-def mirror (ds : Dataset) (coords : List String) (pd dts : Opt) (env : Env) : Env :=
-  fun x => if reversed (plans ds coords pd dts) x then ds.sz x - 1 - env x else env x
-
 theorem out_eq {ds : Dataset} {coords : List String} {pd dts : Opt} {out : Dataset} {w : List String}
     (h : Valid ds coords) (hn : normalize ds coords pd dts = some (out, w)) :
     out = normOut ds coords pd dts ∧ w = coords.flatMap (warnFor ds) := by
@@ -102,43 +94,6 @@ theorem normalize_order (ds : Dataset) (coords : List String) (pd : Opt) (t : Bo
   obtain ⟨cv', hfind, ha⟩ := coord_after ds coords pd (some t) h c hc cv d hg
   exact ⟨cv', by rw [(out_eq h hn).1]; exact hfind, order_after ds c cv cv' d pd t hg ha⟩
 
-/-- the re-indexing stays inside the array -/
-theorem mirror_inBox (ds : Dataset) (coords : List String) (pd dts : Opt) (dims : List String) (env : Env)
-    (h : InBox ds.sz dims env) : InBox ds.sz dims (mirror ds coords pd dts env) := by
-  intro x hx
-  have := h x hx
-  simp only [mirror]
-  split <;> omega
-
-/-- the dimensions of the plans are pairwise different -/
-theorem plans_dim_nodup (ds : Dataset) (coords : List String) (pd dts : Opt) (h : Valid ds coords) :
-    ((plans ds coords pd dts).map (·.dim)).Nodup := by
-  have hgood := h.good
-  have hind := h.indep
-  clear h
-  induction coords with
-  | nil => simp [plans]
-  | cons c cs ih =>
-    rw [List.pairwise_cons] at hind
-    simp only [plans, List.map_cons, List.nodup_cons]
-    refine ⟨?_, ih (fun x hx => hgood x (by simp [hx])) hind.2⟩
-    intro hmem
-    simp only [List.map_map, List.mem_map, Function.comp] at hmem
-    obtain ⟨c2, hc2, hd⟩ := hmem
-    obtain ⟨cv, d, hg⟩ := hgood c (by simp)
-    obtain ⟨cv2, d2, hg2⟩ := hgood c2 (by simp [hc2])
-    have e1 : (planFor ds pd dts c).dim = d := by simp [planFor, hg.found, hg.dims, planOf]
-    have e2 : (planFor ds pd dts c2).dim = d2 := by simp [planFor, hg2.found, hg2.dims, planOf]
-    rw [e1, e2] at hd
-    have := ((hind.1 c2 hc2).2 cv cv2 hg.found hg2.found).1 d (by simp [hg.dims])
-    rw [hg2.dims] at this
-    exact this (by simp [hd])
-
-theorem sigma_eq_mirror (ds : Dataset) (coords : List String) (pd dts : Opt) (h : Valid ds coords) (env : Env) :
-    sigma ds.sz (plans ds coords pd dts) env = mirror ds coords pd dts env := by
-  funext x
-  exact sigma_apply ds.sz _ env x (plans_dim_nodup ds coords pd dts h)
-
 /-- **Data stay attached to their physical depth.** There is one re-indexing of the levels
 (`mirror`: the reversed depth dimensions are mirrored, nothing else moves) such that
 * every plain variable `u` (not a depth coordinate, not a bounds variable of one) of the
@@ -187,27 +142,8 @@ theorem data_attached (ds : Dataset) (coords : List String) (pd dts : Opt) (out 
     have hat := at_applyPlan_coord ds.sz (planOf cv d pd dts) cv env rfl rfl hself hbox
     rw [← hcv'] at hat
     -- the mirror on the coordinate's own dimension is its own reversal
-    have hrevd : reversed (plans ds coords pd dts) d = (planOf cv d pd dts).rev := by
-      obtain ⟨l1, l2, rfl⟩ := List.append_of_mem hc
-      have hnd := plans_dim_nodup ds (l1 ++ c :: l2) pd dts h
-      have e : planFor ds pd dts c = planOf cv d pd dts := by simp [planFor, hg.found, hg.dims]
-      simp only [plans, List.map_append, List.map_cons, e] at hnd ⊢
-      have hpd : (planOf cv d pd dts).dim = d := rfl
-      rw [List.nodup_append] at hnd
-      obtain ⟨_, hnd2, hdisj⟩ := hnd
-      simp only [List.nodup_cons, hpd] at hnd2
-      have h1 : ∀ q ∈ l1.map (planFor ds pd dts), (q.rev && q.dim == d) = false := by
-        intro q hq
-        have : q.dim ≠ d := fun e => hdisj q.dim (List.mem_map_of_mem (f := (·.dim)) hq) d (by simp [hpd]) e
-        simp [this]
-      have h2 : ∀ q ∈ l2.map (planFor ds pd dts), (q.rev && q.dim == d) = false := by
-        intro q hq
-        have : q.dim ≠ d := fun e => hnd2.1 (e ▸ List.mem_map_of_mem (f := (·.dim)) hq)
-        simp [this]
-      simp only [reversed, List.any_append, List.any_cons, hpd, beq_self_eq_true, Bool.and_true]
-      rw [List.any_eq_false.mpr (fun q hq => by simpa using h1 q hq),
-        List.any_eq_false.mpr (fun q hq => by simpa using h2 q hq)]
-      simp
+    have hrevd : reversed (plans ds coords pd dts) d = (planOf cv d pd dts).rev :=
+      reversed_own ds coords pd dts h c hc cv d hg
     have hmir : cv.at ds.sz (if (planOf cv d pd dts).rev = true then flipEnv ds.sz (planOf cv d pd dts).dim env else env)
         = cv.at ds.sz (mirror ds coords pd dts env) := by
       apply at_congr
